@@ -18,7 +18,7 @@ out=$(mktemp)
 VCHECK_PHASE=run VCHECK_SUFFIX=.seed /verif/vcheck "$id" "$tier" "$@" > "$out" 2>&1; rc=$?
 echo "seed=$(basename $dir) check=$id tier=$tier exit=$rc"
 grep -m5 "^VIOLATION\|^  key\|HARNESS-ERROR" "$out"
-tail -3 "$out" | cut -c1-300
+tail -3 "$out" | cut -c1-300; cp "$out" /verif/.work/last_try_seed.out
 # the evidence file now describes the seeded run: re-run the check on the unchanged tree afterwards
 rm -f "$out"
 exit $rc
